@@ -7,3 +7,4 @@ for id in $(python3 -c "import json;print(' '.join(c['property_id'] for c in jso
   echo "rc=$rc $(echo "$out" | tail -1)"
   [ $rc -ne 0 ] && echo "$out" | grep -E "^VIOLATION|HARNESS" | head -5
 done
+true
